@@ -8,6 +8,8 @@ import sys, os, subprocess, shutil, tempfile, json, re
 prop, n = sys.argv[1], sys.argv[2]
 checks = sys.argv[3:] or [prop]
 src = f"/tmp/seed/{prop}/out/{n}"
+if not os.path.exists(src + "/patch.diff"):
+    src = f"/verif/seeded/{prop}-{n}"  # already kept: re-evaluate from the stored copy
 env = dict(os.environ, GOFLAGS="-mod=mod", GOPROXY="off", GOSUMDB="off", GOTOOLCHAIN="local")
 def run(cmd, cwd, timeout=600):
     p = subprocess.run(cmd, cwd=cwd, env=env, shell=True, capture_output=True, text=True, timeout=timeout)
@@ -55,9 +57,11 @@ res["caught_by"] = [c for c, r in res.get("checks", {}).items() if r["violations
 out = f"/verif/seeded/{prop}-{n}"
 os.makedirs(out, exist_ok=True)
 if ok:
-    shutil.copy(f"{src}/patch.diff", f"{out}/patch.diff")
-    shutil.copy(f"{src}/demo_test.go", f"{out}/demo_test.go")
     notes = open(f"{src}/notes.md").read() if os.path.exists(f"{src}/notes.md") else ""
+    if os.path.abspath(src) != os.path.abspath(out):
+        shutil.copy(f"{src}/patch.diff", f"{out}/patch.diff")
+        shutil.copy(f"{src}/demo_test.go", f"{out}/demo_test.go")
+        open(f"{out}/notes.md", "w").write(notes)
     meta = {"property": prop, "breaks": prop, "needs_to_manifest": notes[:1500], "confirmed_by": "tools/seedeval.py: patch applies to a scratch copy of /repo, go build ./... ok, full suite passes with the change, demonstration fails with the change and passes without it",
             "demo": {"package": pkgdir, "test": tname}, "checks_run": res["checks"], "caught_by": res["caught_by"]}
     json.dump(meta, open(f"{out}/meta.json", "w"), indent=1)
